@@ -28,6 +28,8 @@ pub struct TestRunnerAdapter {
     event_sender: Sender<MachineEvent>,
     event_receiver: Receiver<MachineEvent>,
     breakpoints: Arc<Mutex<Vec<MachineBreakpoint>>>,
+    /// The breakpoints as the client has set them, which it does per source file
+    breakpoints_per_source: HashMap<String, Vec<MachineBreakpoint>>,
 }
 
 impl TestRunnerAdapter {
@@ -174,6 +176,7 @@ impl TestRunnerAdapter {
             event_sender,
             event_receiver,
             breakpoints,
+            breakpoints_per_source: HashMap::new(),
         })
     }
 
@@ -323,7 +326,15 @@ impl MachineAdapter for TestRunnerAdapter {
     ) -> MosResult<Vec<MachineValidatedBreakpoint>> {
         #[cfg(mos_verif)]
         crate::verif_hooks::point_mutex("s:set_breakpoints", &self.breakpoints);
-        *self.breakpoints.lock().unwrap() = breakpoints.clone();
+        // A request replaces the breakpoints of its own source file only; those of the other files stay
+        self.breakpoints_per_source
+            .insert(source_path.into(), breakpoints.clone());
+        *self.breakpoints.lock().unwrap() = self
+            .breakpoints_per_source
+            .values()
+            .flatten()
+            .cloned()
+            .collect();
         Ok(breakpoints
             .into_iter()
             .enumerate()
